@@ -238,5 +238,6 @@ def check(tier):
             ck.add_mutant(name, m, "safe", "harness.C06", "safe_job", dict(cases=[(2, 1, -2, 2), (1, 1, -3, 3)]))
         else:
             ck.add_mutant(name, m, "ma", "harness.C06", "massaction_job", dict(cases=mc[:12]))
+    ck.validate = ['delay_ssa', 'ssa']
     ck.run()
     return ck.finish(replay=REPLAY)
